@@ -55,7 +55,7 @@ static void runSequences(const Opt &o, Ev &ev) {
 static std::string bodyWalk(Src &s, Ev &ev) {
     int queue = (int) s.range(1, 4);
     std::vector<Op> ops = decodeWalk(s, 200);
-    int mode = s.prob(1, 3) ? (int) s.range(1, 4) : 0;       // what the service-request callback returns / does (status_explore.hpp)
+    int mode = s.prob(1, 3) ? (int) s.range(1, 6) : 0;       // what the service-request callback returns / does (status_explore.hpp)
     Hist h;
     std::string m = runWalk(ops, queue, chk, &h, mode);
     if (mode) ev.label(fmt("walk-control-callback-mode-%d", mode));
